@@ -19,7 +19,7 @@ import time
 import traceback
 
 from .chooser import Chooser, run_seed
-from .shrink import shrink
+from .shrink import shrink, shrink_streams
 
 VERIF = os.path.dirname(os.path.dirname(os.path.abspath(__file__)))
 REPO = os.environ.get("BSIM_REPO", "/repo")
@@ -358,7 +358,7 @@ def minimise_and_write(eng, v, seed, tier, tree_digest, budget=None):
     minimised = False
     values = v["draws"]
     if ok:
-        values, calls = shrink(canon, test, budget or eng.shrink_budget)
+        values, calls = shrink_streams(canon, test, budget or eng.shrink_budget)
         minimised = True
         values, scenario = eng.shrink_scenario(scenario, values, test_factory=lambda sc: (lambda vals: _test_sc(eng, sc, vals, want)))
     out, canon = replay_values(eng, scenario, values)
@@ -368,7 +368,8 @@ def minimise_and_write(eng, v, seed, tier, tree_digest, budget=None):
         "labelled_draws": Chooser_labelled(eng, scenario, canon),
         "violation": out.violation if out.violation is not None else v["violation"],
         "event_digest": out.event_digest(), "minimised": minimised, "reproduced_in_process": bool(ok),
-        "original_draw_count": len(v["draws"]), "events": out.events[-300:],
+        "original_draw_count": sum(len(x) for x in v["draws"].values()), "minimised_draw_count": sum(len(x) for x in canon.values()),
+        "events": out.events[-300:],
     }
     rdir = os.path.join(VERIF, "replays") if not os.environ.get("BSIM_NO_EVIDENCE") else os.path.join(scratch_root(), "replays")
     os.makedirs(rdir, exist_ok=True)
@@ -412,8 +413,8 @@ def replay_file(eng_lookup, path, quiet=False):
     ch = Chooser(replay=rp["draws"])
     out = eng.execute(rp["scenario"], ch)
     want = (rp["violation"]["oracle"], rp["violation"].get("actor", ""))
-    rec_labels = [l for (l, _, _) in rp.get("labelled_draws", [])]
-    now_labels = [l for (l, _, _) in ch.record][:len(rec_labels)]
+    rec_labels = [tuple(x[:2]) for x in rp.get("labelled_draws", [])]
+    now_labels = [tuple(x[:2]) for x in ch.record][:len(rec_labels)]
     if rec_labels and rec_labels[:len(now_labels)] != now_labels:
         print("note: the draw labels of this run differ from the recording: either the tree takes another path "
               "(expected after a fix) or the generator changed since the file was written")
